@@ -72,6 +72,14 @@ CHECKS["C09"] = dict(
          "UNDECIDED ones are listed in the evidence and not claimed. Termination of the two service loops is not decided.",
     design="DESIGN.md §6 C09")
 
+CHECKS["C10"] = dict(
+    technique="language inclusion: string-template abstract evaluation of every assembler action (syn ASTs) + membership of every instantiated template in the downstream grammars via lalrpop's own LR(1) tables and lexer; structural comparison of guards/constant sets",
+    text="Decided completely over the finite shape set: each of the ~39,000 templates the assembler can emit (all mnemonic/register/override alternatives "
+         "expanded, numeric holes at the boundaries of their Rust type; the full product in the thorough tier) is a sentence of the grammar it is destined "
+         "for (interpreter, and printer for print lines; data loader for data lines; the driver-appended hlt), numeric holes fit the downstream conversion, "
+         "no identifier/keyword clash, every fallible downstream action has an upstream guarantee, the driver has an arm for every INT.",
+    design="DESIGN.md §6 C10")
+
 NOT_YET = {}
 
 
